@@ -343,3 +343,29 @@ def no_decorators(chk, program, rule='FRESH-MSG'):
                 chk.violation(rule, f"pgns.{name}::decorated", file='nmea2000/pgns.py', line=s['line'], func=name, expected='no decorator on a generated function', found=f"{s['decorators']} decorator(s)",
                               detail='a memoising decorator returns one shared message object for equal payloads: add_data / unit conversion of one decode show up in another decoder\'s result')
     chk.ok(rule, 'pgns::undecorated', file='nmea2000/pgns.py', line=0, found=f"{n} generated functions scanned")
+    # hand-written modules: a memoising decorator (lru_cache / cache) on a function that returns decoded messages -- what a generated decoder
+    # returns, or a message it builds -- hands one object (or one list of field objects) to several callers
+    for mname in ('decoder', 'message', 'utils', 'encoder'):
+        if mname not in program.modules:
+            continue
+        m = program.modules[mname]
+        tree = getattr(m, 'raw_tree', m.tree)
+        for fn in [n_ for n_ in ast.walk(tree) if isinstance(n_, (ast.FunctionDef, ast.AsyncFunctionDef))]:
+            memo = [d for d in fn.decorator_list if any(isinstance(x, (ast.Name, ast.Attribute)) and (getattr(x, 'id', None) in ('lru_cache', 'cache', 'cached_property') or getattr(x, 'attr', None) in ('lru_cache', 'cache'))
+                                                        for x in ast.walk(d))]
+            if not memo:
+                continue
+            hands_out = False
+            for c in ast.walk(fn):
+                if isinstance(c, ast.Call):
+                    f = c.func
+                    nm = f.id if isinstance(f, ast.Name) else (f.attr if isinstance(f, ast.Attribute) else '')
+                    if nm.startswith(('decode_pgn_', 'decode_func')) or nm in ('NMEA2000Message', 'NMEA2000Field', 'decode_func', '_call_decode_function') or \
+                            (isinstance(f, ast.Call) or isinstance(f, ast.Subscript)) and 'globals' in ast.unparse(f):
+                        hands_out = True
+                    if isinstance(f, ast.Name) and any(isinstance(a_, ast.Assign) and any(isinstance(t_, ast.Name) and t_.id == f.id for t_ in a_.targets) and 'globals' in ast.unparse(a_.value)
+                                                       for a_ in ast.walk(fn)):
+                        hands_out = True
+            chk.check(not hands_out, rule, f"{mname}.{fn.name}::memoised", file=m.rel(), line=fn.lineno, func=fn.name, expected='no memoising decorator on a function that returns decoded messages',
+                      found='memoised' if hands_out else 'memoised, returns no message', detail='' if not hands_out else
+                      'equal payloads get one shared message / shared field objects: add_data, unit conversion or a caller\'s edit of one result shows up in the next (also across decoder instances)')
